@@ -254,5 +254,5 @@ func runC15(c *Ctx) {
 	c.Min("V4-injected-table-writers", 3)
 	// V5
 	c.ruleOwnDc("V5-shared-injected-names", c.engineExecFns())
-	c.Min("V5-shared-injected-names", 37)
+	c.Min("V5-shared-injected-names", 25)
 }
